@@ -19,9 +19,11 @@ def evalExpr (env : Env) (v : View) (e : Node) : Option Bool × List Effect × O
 
 /-- `Matcher.matches` (not the blank last line): expressions in order; before each one the stop
     and skip flags are tested; every vote is folded into `failed` (AND: a False vote sets it, OR: a
-    True vote clears it); no short-circuit -/
+    True vote clears it); no short-circuit; after the last one the skip flag is tested once more -/
 def matchExprs (env : Env) : List Node → View → Bool → Option String → Bool × View × Option String
-  | [], v, failed, bad => (!failed, v, bad)
+  | [], v, failed, bad =>
+    -- a skip() fired by the last component: the line is skipped and the flag does not leak
+    if v.skip then (false, { v with skip := false }, bad) else (!failed, v, bad)
   | e :: es, v, failed, bad =>
     if v.stopped then (false, v, bad)
     else if v.skip then (false, { v with skip := false }, bad)
